@@ -427,3 +427,391 @@ func verifAssume(cond bool) {}
 //@   modifies m.respCmdHandlers
 //@   ensures len(m.respCmdHandlers) == old(len(m.respCmdHandlers)) + 1
 //@   ensures m.respCmdHandlers[old(len(m.respCmdHandlers))] == handler
+
+// ---------------------------------------------------------------------------
+// C01 / C02 - envelope codec: raw-level contracts (toRawEnvelope / populate /
+// kind discrimination / documents) and panic-freedom of the decode path
+// ---------------------------------------------------------------------------
+// Document and authentication payloads are abstracted by a ghost `text` cell
+// (their JSON encoding) living at the payload address: json.Marshal reads it,
+// json.Unmarshal writes it (contracts in /verif/contracts/extern.spec).
+
+//@ interface Document
+//@   ghost field text string
+//@ interface Authentication
+//@   ghost field text string
+
+//@ spec fn rawBase(r *rawEnvelope, e *Envelope) bool = r.ID == e.ID && r.Metadata == e.Metadata && ite(e.From != Node{}, r.From == &e.From, r.From == nil) && ite(e.PP != Node{}, r.PP == &e.PP, r.PP == nil) && ite(e.To != Node{}, r.To == &e.To, r.To == nil)
+//@ spec fn noMsgFields(r *rawEnvelope) bool = r.Content == nil
+//@ spec fn noNotFields(r *rawEnvelope) bool = r.Event == nil
+//@ spec fn noCmdFields(r *rawEnvelope) bool = r.Method == nil && r.Resource == nil && r.URI == nil && r.Status == nil
+//@ spec fn noSesFields(r *rawEnvelope) bool = r.State == nil && r.EncryptionOptions == nil && r.Encryption == nil && r.CompressionOptions == nil && r.Compression == nil && r.SchemeOptions == nil && r.Scheme == nil && r.Authentication == nil
+//@ spec fn popBase(e *Envelope, old_e Envelope, r *rawEnvelope) bool = e.ID == r.ID && e.Metadata == r.Metadata && e.From == ite(r.From != nil, old(*r.From), old_e.From) && e.PP == ite(r.PP != nil, old(*r.PP), old_e.PP) && e.To == ite(r.To != nil, old(*r.To), old_e.To)
+
+// rawApart: none of the raw envelope's pointers points into the object being
+// populated (true for every caller: the target is allocated after the raw value).
+//@ spec fn rawApart(r *rawEnvelope, o *Envelope) bool = !sameobj(r, o) && !sameobj(r.From, o) && !sameobj(r.PP, o) && !sameobj(r.To, o) && !sameobj(r.Metadata, o) && !sameobj(r.Reason, o) && !sameobj(r.Type, o) && !sameobj(r.Content, o) && !sameobj(r.Event, o) && !sameobj(r.Method, o) && !sameobj(r.Resource, o) && !sameobj(r.URI, o) && !sameobj(r.Status, o) && !sameobj(r.State, o) && !sameobj(r.Encryption, o) && !sameobj(r.Compression, o) && !sameobj(r.Scheme, o) && !sameobj(r.Authentication, o)
+
+//@ func (*Envelope).toRawEnvelope
+//@   props C01 C02
+//@   requires env != nil
+//@   ensures err == nil && result0 != nil && fresh(result0)
+//@   ensures rawBase(result0, env)
+//@   ensures result0.Reason == nil && result0.Type == nil && noMsgFields(result0) && noNotFields(result0) && noCmdFields(result0) && noSesFields(result0)
+//@   modifies nothing
+
+//@ func (*Envelope).populate
+//@   props C01 C02
+//@   requires raw != nil && env != nil ==> rawApart(raw, env)
+//@   ensures result == nil
+//@   ensures raw != nil && env != nil ==> popBase(env, old(*env), raw)
+//@   ensures raw == nil && env != nil ==> *env == old(*env)
+//@   modifies *env
+
+//@ spec fn resolveFactory(t MediaType) func() Document = ite(mapdom(documentFactories, t), documentFactories[t], ite(t.Suffix == "json", documentFactories[mediaTypeApplicationJson], documentFactories[mediaTypeTextPlain]))
+//@ spec fn factoryTag(f func() Document) int = uninterpreted
+
+//@ func (MediaType).IsJson
+//@   props C01 C02
+//@   ensures result == (m.Suffix == "json")
+//@   modifies nothing
+
+//@ func GetDocumentFactory
+//@   props C01 C02
+//@   ensures err == nil ==> result0 != nil && result0 == resolveFactory(t)
+//@   ensures err != nil ==> resolveFactory(t) == nil
+//@   modifies nothing
+
+//@ callback role documentFactory() (d) : result 0 of GetDocumentFactory, param f of RegisterDocumentFactory
+//@   modifies nothing
+//@   ensures d != nil && fresh(d) && tagof(d) == factoryTag(self_)
+//@   note registered document factories return a new non-nil document of a fixed dynamic type
+
+//@ func UnmarshalDocument
+//@   props C01 C02
+//@   requires @dnil d != nil
+//@   ensures err == nil && result0 != nil ==> tagof(result0) == factoryTag(resolveFactory(t)) && result0.text == bytes(*d) && fresh(result0)
+//@   ensures err == nil && result0 == nil ==> bytes(*d) == "null"
+//@   ensures err == nil ==> resolveFactory(t) != nil
+//@   modifies nothing
+
+//@ func (*Message).toRawEnvelope
+//@   props C01 C02
+//@   requires msg != nil
+//@   ensures msg.Content == nil ==> err != nil
+//@   ensures msg.Content != nil && jsonOK(msg.Content) ==> err == nil
+//@   ensures err == nil ==> result0 != nil && fresh(result0) && rawBase(result0, &msg.Envelope)
+//@   ensures err == nil ==> result0.Type == &msg.Type && result0.Content != nil && fresh(result0.Content) && bytes(*result0.Content) == msg.Content.text
+//@   ensures err == nil ==> result0.Reason == nil && noNotFields(result0) && noCmdFields(result0) && noSesFields(result0)
+//@   modifies nothing
+
+//@ func (*Message).populate
+//@   props C01 C02
+//@   requires msg != nil && raw != nil && rawApart(raw, msg)
+//@   ensures raw.Type == nil || raw.Content == nil ==> result != nil
+//@   ensures result == nil ==> popBase(&msg.Envelope, old(msg.Envelope), raw) && msg.Type == *raw.Type
+//@   ensures result == nil && msg.Content != nil ==> tagof(msg.Content) == factoryTag(resolveFactory(*raw.Type)) && msg.Content.text == bytes(*raw.Content)
+//@   ensures result == nil && msg.Content == nil ==> bytes(*raw.Content) == "null"
+//@   modifies *msg
+
+//@ func (*Message).UnmarshalJSON
+//@   props C02
+//@   requires msg != nil
+//@   modifies *msg
+
+//@ func (*Message).MarshalJSON
+//@   props C02
+//@   requires msg != nil
+//@   modifies nothing
+
+//@ func (*Notification).toRawEnvelope
+//@   props C01 C02
+//@   requires not != nil
+//@   ensures err == nil && result0 != nil && fresh(result0) && rawBase(result0, &not.Envelope)
+//@   ensures ite(not.Event != "", result0.Event == &not.Event, result0.Event == nil) && result0.Reason == not.Reason
+//@   ensures result0.Type == nil && noMsgFields(result0) && noCmdFields(result0) && noSesFields(result0)
+//@   modifies nothing
+
+//@ func (*Notification).populate
+//@   props C01 C02
+//@   requires not != nil && raw != nil && rawApart(raw, not)
+//@   ensures raw.Event == nil ==> result != nil
+//@   ensures result == nil ==> popBase(&not.Envelope, old(not.Envelope), raw) && not.Event == *raw.Event && not.Reason == raw.Reason
+//@   modifies *not
+
+//@ func (*Notification).UnmarshalJSON
+//@   props C02
+//@   requires not != nil
+//@   modifies *not
+
+//@ spec fn rawCommand(r *rawEnvelope, c *Command) bool = rawBase(r, &c.Envelope) && ite(c.Method != "", r.Method == &c.Method, r.Method == nil) && ite(c.Resource != nil, r.Resource != nil && bytes(*r.Resource) == c.Resource.text && r.Type == c.Type, r.Resource == nil && r.Type == nil)
+
+//@ func (*Command).toRawEnvelope
+//@   props C01 C02
+//@   requires cmd != nil
+//@   ensures cmd.Resource == nil || jsonOK(cmd.Resource) ==> err == nil
+//@   ensures err == nil ==> result0 != nil && fresh(result0) && rawCommand(result0, cmd)
+//@   ensures err == nil ==> result0.Reason == nil && result0.URI == nil && result0.Status == nil && noMsgFields(result0) && noNotFields(result0) && noSesFields(result0)
+//@   ensures err == nil && result0.Resource != nil ==> fresh(result0.Resource)
+//@   modifies nothing
+
+//@ spec fn popCommand(c *Command, old_c Command, r *rawEnvelope) bool = popBase(&c.Envelope, old_c.Envelope, r) && c.Method == *r.Method && ite(r.Resource != nil, c.Type == r.Type && (c.Resource != nil ==> tagof(c.Resource) == factoryTag(resolveFactory(*r.Type)) && c.Resource.text == bytes(*r.Resource)) && (c.Resource == nil ==> bytes(*r.Resource) == "null"), c.Type == old_c.Type && c.Resource == old_c.Resource)
+
+//@ func (*Command).populate
+//@   props C01 C02
+//@   requires cmd != nil && raw != nil && rawApart(raw, cmd)
+//@   ensures raw.Method == nil ==> result != nil
+//@   ensures raw.Resource != nil && raw.Type == nil ==> result != nil
+//@   ensures result == nil ==> popCommand(cmd, old(*cmd), raw)
+//@   modifies *cmd
+
+//@ func (*RequestCommand).toRawEnvelope
+//@   props C01 C02
+//@   requires cmd != nil
+//@   ensures cmd.Resource == nil || jsonOK(cmd.Resource) ==> err == nil
+//@   ensures err == nil ==> result0 != nil && fresh(result0) && rawCommand(result0, &cmd.Command) && result0.URI == cmd.URI
+//@   ensures err == nil ==> result0.Reason == nil && result0.Status == nil && noMsgFields(result0) && noNotFields(result0) && noSesFields(result0)
+//@   modifies nothing
+
+//@ func (*RequestCommand).populate
+//@   props C01 C02
+//@   requires cmd != nil && raw != nil && rawApart(raw, cmd)
+//@   ensures raw.Method == nil ==> result != nil
+//@   ensures result == nil ==> popCommand(&cmd.Command, old(cmd.Command), raw) && cmd.URI == raw.URI
+//@   modifies *cmd
+
+//@ func (*RequestCommand).UnmarshalJSON
+//@   props C02
+//@   requires cmd != nil
+//@   modifies *cmd
+
+//@ func (*ResponseCommand).toRawEnvelope
+//@   props C01 C02
+//@   requires cmd != nil
+//@   ensures cmd.Resource == nil || jsonOK(cmd.Resource) ==> err == nil
+//@   ensures err == nil ==> result0 != nil && fresh(result0) && rawCommand(result0, &cmd.Command) && result0.Reason == cmd.Reason
+//@   ensures err == nil ==> ite(cmd.Status != "", result0.Status == &cmd.Status, result0.Status == nil)
+//@   ensures err == nil ==> result0.URI == nil && noMsgFields(result0) && noNotFields(result0) && noSesFields(result0)
+//@   modifies nothing
+
+//@ func (*ResponseCommand).populate
+//@   props C01 C02
+//@   requires cmd != nil && raw != nil && rawApart(raw, cmd)
+//@   ensures raw.Method == nil ==> result != nil
+//@   ensures result == nil ==> popCommand(&cmd.Command, old(cmd.Command), raw) && cmd.Reason == raw.Reason && cmd.Status == ite(raw.Status != nil, *raw.Status, old(cmd.Status))
+//@   modifies *cmd
+
+//@ func (*ResponseCommand).UnmarshalJSON
+//@   props C02
+//@   requires cmd != nil
+//@   modifies *cmd
+
+//@ func (*rawEnvelope).envelopeType
+//@   props C01 C02
+//@   requires re != nil
+//@   ensures re.Method != nil && re.URI != nil ==> result0 == "RequestCommand" && err == nil
+//@   ensures re.Method != nil && re.URI == nil && re.Status != nil ==> result0 == "ResponseCommand" && err == nil
+//@   ensures !(re.Method != nil && (re.URI != nil || re.Status != nil)) && re.Event != nil ==> result0 == "Notification" && err == nil
+//@   ensures !(re.Method != nil && (re.URI != nil || re.Status != nil)) && re.Event == nil && re.Content != nil ==> result0 == "Message" && err == nil
+//@   ensures !(re.Method != nil && (re.URI != nil || re.Status != nil)) && re.Event == nil && re.Content == nil && re.State != nil ==> result0 == "Session" && err == nil
+//@   ensures !(re.Method != nil && (re.URI != nil || re.Status != nil)) && re.Event == nil && re.Content == nil && re.State == nil ==> err != nil
+//@   modifies nothing
+
+//@ func (*rawEnvelope).toEnvelope
+//@   props C01 C02
+//@   requires re != nil
+//@   ensures err == nil ==> result0 != nil && fresh(result0)
+//@   modifies nothing
+
+//@ spec fn jsonOK(d Document) bool = uninterpreted
+//@ spec fn freshOrNil(p *Node) bool = p == nil || fresh(p)
+//@ spec fn rawFresh(r *rawEnvelope) bool = freshOrNil(r.From) && freshOrNil(r.PP) && freshOrNil(r.To) && freshOrNil(r.Metadata) && freshOrNil(r.Reason) && freshOrNil(r.Type) && freshOrNil(r.Content) && freshOrNil(r.Event) && freshOrNil(r.Method) && freshOrNil(r.Resource) && freshOrNil(r.URI) && freshOrNil(r.Status) && freshOrNil(r.State) && freshOrNil(r.Encryption) && freshOrNil(r.Compression) && freshOrNil(r.Scheme) && freshOrNil(r.Authentication)
+
+// ---- Session ---------------------------------------------------------------
+
+//@ spec fn authOK(a Authentication) bool = uninterpreted
+//@ spec fn authFactoryTag(f func() Authentication) int = uninterpreted
+
+//@ mapinv authFactories : v != nil  ## the registry is initialised with five non-nil factories and never written afterwards
+//@ callback role authFactory() (a) : element of authFactories
+//@   modifies nothing
+//@   ensures a != nil && fresh(a) && tagof(a) == authFactoryTag(self_)
+//@   note authFactories holds only the package's own factories, which return a new non-nil value
+
+//@ func (*Session).toRawEnvelope
+//@   props C01 C02
+//@   requires s != nil
+//@   ensures s.Authentication == nil || authOK(s.Authentication) ==> err == nil
+//@   ensures err == nil ==> result0 != nil && fresh(result0) && rawBase(result0, &s.Envelope)
+//@   ensures err == nil ==> result0.Reason == s.Reason && result0.Type == nil && noMsgFields(result0) && noNotFields(result0) && noCmdFields(result0)
+//@   ensures err == nil ==> ite(s.State != "", result0.State == &s.State, result0.State == nil)
+//@   ensures err == nil ==> result0.EncryptionOptions == s.EncryptionOptions && result0.CompressionOptions == s.CompressionOptions && result0.SchemeOptions == s.SchemeOptions
+//@   ensures err == nil ==> ite(s.Encryption != "", result0.Encryption == &s.Encryption, result0.Encryption == nil)
+//@   ensures err == nil ==> ite(s.Compression != "", result0.Compression == &s.Compression, result0.Compression == nil)
+//@   ensures err == nil ==> ite(s.Scheme != "", result0.Scheme == &s.Scheme, result0.Scheme == nil)
+//@   ensures err == nil ==> ite(s.Authentication != nil, result0.Authentication != nil && fresh(result0.Authentication) && bytes(*result0.Authentication) == s.Authentication.text, result0.Authentication == nil)
+//@   modifies nothing
+
+//@ func (*Session).populate
+//@   props C01 C02
+//@   requires s != nil && raw != nil && rawApart(raw, s)
+//@   ensures raw.State == nil ==> result != nil
+//@   ensures raw.Authentication != nil && raw.Scheme == nil ==> result != nil
+//@   ensures result == nil ==> popBase(&s.Envelope, old(s.Envelope), raw) && s.State == *raw.State && s.Reason == raw.Reason
+//@   ensures result == nil ==> s.EncryptionOptions == raw.EncryptionOptions && s.CompressionOptions == raw.CompressionOptions && s.SchemeOptions == raw.SchemeOptions
+//@   ensures result == nil ==> s.Encryption == ite(raw.Encryption != nil, *raw.Encryption, old(s.Encryption)) && s.Compression == ite(raw.Compression != nil, *raw.Compression, old(s.Compression)) && s.Scheme == ite(raw.Scheme != nil, *raw.Scheme, old(s.Scheme))
+//@   ensures result == nil && raw.Authentication == nil ==> s.Authentication == old(s.Authentication)
+//@   ensures result == nil && raw.Authentication != nil && s.Authentication != nil ==> tagof(s.Authentication) == authFactoryTag(authFactories[*raw.Scheme]) && s.Authentication.text == bytes(*raw.Authentication)
+//@   modifies *s
+
+//@ func (*Session).UnmarshalJSON
+//@   props C02
+//@   requires s != nil
+//@   modifies *s
+
+// ---- documents -------------------------------------------------------------
+
+//@ func (*DocumentContainer).raw
+//@   props C01 C02
+//@   requires d != nil
+//@   ensures jsonOK(d.Value) ==> err == nil
+//@   ensures result0 != nil && fresh(result0)
+//@   ensures err == nil ==> result0.Type == &d.Type && result0.Value != nil && fresh(result0.Value) && bytes(*result0.Value) == d.Value.text
+//@   modifies nothing
+
+//@ func (*DocumentContainer).populate
+//@   props C01 C02
+//@   requires d != nil && raw != nil && !sameobj(raw.Type, d) && !sameobj(raw.Value, d)
+//@   ensures raw.Type == nil ==> result != nil
+//@   ensures result == nil ==> d.Type == *raw.Type && raw.Value != nil
+//@   ensures result == nil && d.Value != nil ==> tagof(d.Value) == factoryTag(resolveFactory(*raw.Type)) && d.Value.text == bytes(*raw.Value)
+//@   modifies *d
+
+//@ func (*DocumentContainer).UnmarshalJSON
+//@   props C02
+//@   requires d != nil
+//@   modifies *d
+
+//@ func (*DocumentCollection).populate
+//@   props C01 C02
+//@   requires d != nil && raw != nil && !sameobj(raw.ItemType, d) && !sameobj(raw.Items, d)
+//@   ensures raw.ItemType == nil ==> result != nil
+//@   ensures result == nil ==> d.ItemType == *raw.ItemType && d.Total == raw.Total
+//@   ensures result == nil && raw.Items != nil ==> len(d.Items) == len(raw.Items) && fresh(d.Items)
+//@   ensures result == nil && raw.Items == nil ==> d.Items == old(d.Items)
+//@   loop 0 invariant 0 <= it_ && it_ <= len(raw.Items)
+//@   loop 0 invariant len(d.Items) == len(raw.Items) && fresh(d.Items) && d.Items != nil
+//@   modifies *d
+
+//@ func (*DocumentCollection).UnmarshalJSON
+//@   props C02
+//@   requires d != nil
+//@   modifies *d
+
+//@ func (*DocumentCollection).raw
+//@   props C01 C02
+//@   requires d != nil
+//@   ensures result0 != nil && fresh(result0)
+//@   ensures err == nil ==> result0.ItemType == &d.ItemType && result0.Total == d.Total
+//@   ensures err == nil ==> ite(d.Items != nil, len(result0.Items) == len(d.Items) && result0.Items != nil, result0.Items == nil)
+//@   loop 0 invariant 0 <= it_ && it_ <= len(d.Items)
+//@   loop 0 invariant raw.ItemType == &d.ItemType && raw.Total == d.Total && len(raw.Items) == len(d.Items) && fresh(raw.Items) && raw.Items != nil
+//@   modifies nothing
+
+// ---- text hooks called back by encoding/json --------------------------------
+
+//@ func (*NotificationEvent).Validate
+//@   props C01 C02
+//@   requires e != nil
+//@   ensures (result == nil) == validEvent(*e)
+//@   modifies nothing
+
+//@ func (*NotificationEvent).UnmarshalText
+//@   props C01 C02
+//@   requires e != nil
+//@   ensures result == nil ==> validEvent(*e) && *e == NotificationEvent(bytes(text))
+//@   ensures result != nil ==> *e == old(*e)
+//@   modifies *e
+
+//@ func (NotificationEvent).MarshalText
+//@   props C01 C02
+//@   ensures validEvent(e) ==> result1 == nil && bytes(result0) == string(e)
+//@   ensures !validEvent(e) ==> result1 != nil
+//@   modifies nothing
+
+//@ func (CommandMethod).Validate
+//@   props C01 C02
+//@   ensures (result == nil) == validMethod(m)
+//@   modifies nothing
+
+//@ func (*CommandMethod).UnmarshalText
+//@   props C01 C02
+//@   requires m != nil
+//@   ensures result == nil ==> validMethod(*m) && *m == CommandMethod(bytes(text))
+//@   ensures result != nil ==> *m == old(*m)
+//@   modifies *m
+
+//@ func (CommandMethod).MarshalText
+//@   props C01 C02
+//@   ensures validMethod(m) ==> result1 == nil && bytes(result0) == string(m)
+//@   ensures !validMethod(m) ==> result1 != nil
+//@   modifies nothing
+
+//@ spec fn validState(s SessionState) bool = s == SessionStateNew || s == SessionStateNegotiating || s == SessionStateAuthenticating || s == SessionStateEstablished || s == SessionStateFinishing || s == SessionStateFinished || s == SessionStateFailed
+
+//@ func (SessionState).Validate
+//@   props C01 C02
+//@   ensures (result == nil) == validState(s)
+//@   modifies nothing
+
+//@ func (*SessionState).UnmarshalText
+//@   props C01 C02
+//@   requires s != nil
+//@   ensures result == nil ==> validState(*s) && *s == SessionState(bytes(text))
+//@   ensures result != nil ==> *s == old(*s)
+//@   modifies *s
+
+//@ func (SessionState).MarshalText
+//@   props C01 C02
+//@   ensures validState(s) ==> result1 == nil && bytes(result0) == string(s)
+//@   ensures !validState(s) ==> result1 != nil
+//@   modifies nothing
+
+//@ func ParseMediaType
+//@   props C02
+//@   modifies nothing
+
+//@ func (*MediaType).UnmarshalText
+//@   props C02
+//@   requires m != nil
+//@   modifies *m
+
+//@ func ParseIdentity
+//@   props C02
+//@   modifies nothing
+
+//@ func ParseNode
+//@   props C02
+//@   modifies nothing
+
+//@ func (*Node).UnmarshalText
+//@   props C02
+//@   requires n != nil
+//@   ensures result == nil
+//@   modifies *n
+
+//@ func (*Identity).UnmarshalText
+//@   props C02
+//@   requires i != nil
+//@   ensures result == nil
+//@   modifies *i
+
+//@ func ParseLimeURI
+//@   props C02
+//@   ensures err == nil ==> result0 != nil && fresh(result0) && result0.url != nil
+//@   modifies nothing
+
+//@ func (*URI).UnmarshalText
+//@   props C02
+//@   requires u != nil
+//@   modifies *u
